@@ -1389,7 +1389,8 @@ let c13 = function
   | [_; L (A "scanner-build-failed" :: _)] -> "SKIP scnr2_generate could not build the scanner"
   | [_; L (A "modes" :: ms0); text; _k; res] ->
     let members = Stdlib.List.concat_map (function L (A "members" :: sets) -> [Stdlib.List.map (fun x -> ints_of_sx x) sets] | _ -> []) ms0 in
-    let ms = Stdlib.List.filter (function L (A "members" :: _) -> false | _ -> true) ms0 in
+    let skip_lists = Stdlib.List.concat_map (function L (A "skips" :: sets) -> [Stdlib.List.map (fun x -> ints_of_sx x) sets] | _ -> []) ms0 in
+    let ms = Stdlib.List.filter (function L (A "members" :: _) | L (A "skips" :: _) -> false | _ -> true) ms0 in
     (* the grammar's own state annotations decide which user terminals a scanner state has *)
     let membership_problem =
       (match members with
@@ -1436,11 +1437,38 @@ let c13 = function
          | None -> "SKIP model out of fuel"
          | Some toks ->
            let want = Stdlib.List.map (fun ((ty, st), ln) -> (int_of_n ty, int_of_nat st, int_of_nat st + int_of_nat ln)) toks in
-           let got = Stdlib.List.filter_map (fun r -> match ints_of_sx r with [ty; a; b] when ty <> 65534 -> Some (ty, a, b) | _ -> None) real in
-           if got = want then begin
+           let got = Stdlib.List.filter_map (fun r -> match ints_of_sx r with (ty :: a :: b :: _) when ty <> 65534 -> Some (ty, a, b) | _ -> None) real in
+           (* C17: a token is skipped iff it is a built-in skip token or listed in the %skip list of the scanner state it
+              was MATCHED in (the state before the transition it may trigger) *)
+           let flag_problem =
+             if prop <> "C17" || got <> want then None else begin
+               let flags = Stdlib.List.filter_map (fun r -> match ints_of_sx r with [ty; _; _; f] when ty <> 65534 -> Some f | _ -> None) real in
+               let skips = (match skip_lists with [l] -> l | _ -> []) in
+               if Stdlib.List.length flags <> Stdlib.List.length got then None else begin
+                 let mode = ref 0 and stack = ref [] and bad = ref None in
+                 Stdlib.List.iteri (fun i ((ty, a, _), f) ->
+                     let listed = (match Stdlib.List.nth_opt skips !mode with Some l -> Stdlib.List.mem ty l | None -> false) in
+                     let expect = if (ty >= 1 && ty <= 4) || listed then 1 else 0 in
+                     if f <> expect && !bad = None then
+                       bad := Some (Printf.sprintf "token %d (type %d at %d, matched in scanner state %d) is %s, but its state's %%skip list says %s" i ty a !mode
+                                      (if f = 1 then "skipped" else "delivered to the parser") (if expect = 1 then "skip" else "deliver"));
+                     (match Stdlib.List.nth_opt modes !mode with
+                      | Some (_, tr) ->
+                        (match Stdlib.List.assoc_opt (n_of_int ty) tr with
+                         | Some (LongestMatch.Enter m) -> mode := int_of_nat m
+                         | Some (LongestMatch.Push m) -> stack := !mode :: !stack; mode := int_of_nat m
+                         | Some LongestMatch.Pop -> (match !stack with m :: rest -> mode := m; stack := rest | [] -> ())
+                         | None -> ())
+                      | None -> ())) (Stdlib.List.combine got flags);
+                 !bad
+               end
+             end in
+           if flag_problem <> None then (match flag_problem with Some w -> "FAIL key=state-skip-flag " ^ w | None -> "FAIL ?")
+           else if got = want then begin
              (* non-trivial: at some token start at least two entries match *)
              let nt = Stdlib.List.length want >= 2 in
-             Printf.sprintf "OK %d modes-%d" (if nt then 1 else 0) (Stdlib.List.length modes)
+             let has_skips = (match skip_lists with [l] -> Stdlib.List.exists (fun x -> x <> []) l | _ -> false) in
+             Printf.sprintf "OK %d modes-%d%s" (if nt then 1 else 0) (Stdlib.List.length modes) (if has_skips then " state-skip-lists" else "")
            end else begin
              let rec firstdiff i a b = (match a, b with
                  | x :: a', y :: b' when x = y -> firstdiff (i + 1) a' b'
